@@ -1,10 +1,657 @@
 // Package instr rewrites repo packages onto the virtual runtime (engine E1).
+//
+// For each listed package directory it parses the non-test Go files of the
+// current working tree, type-checks them (export data of the dependencies comes
+// from `go list -export`), rewrites
+//
+//	import "sync" / "time" / "context"(opt-in) / benbjohnson clock  ->  shim packages
+//	go f(a, b)                 ->  bind callee and arguments, vsched.Go(func(){ f(a,b) })
+//	ch <- v, <-ch, v,ok := <-ch, close(ch), for x := range ch
+//	select { ... }             ->  vsched.NewRecv/NewSend + switch vsched.Select(...)
+//	for k, v := range aMap     ->  canonical key order (a legal Go iteration order)
+//	aMap[k] = v (non-basic k)  ->  aMap[vsched.Touch(k)] = v
+//	selected qualified calls   ->  harness-provided functions (opts["redirect"])
+//
+// and writes the copies to outDir. It fails loudly on anything it does not
+// understand so that a source change cannot silently leave an un-instrumented
+// hole.
 package instr
 
-import "fmt"
+import (
+	"bytes"
+	"encoding/json"
+	"fmt"
+	"go/ast"
+	"go/importer"
+	"go/parser"
+	"go/printer"
+	"go/token"
+	"go/types"
+	"io"
+	"os"
+	"os/exec"
+	"path/filepath"
+	"strconv"
+	"strings"
+)
+
+const shimBase = "github.com/bio-routing/bio-rd/zzverif/"
+
+type listPkg struct {
+	ImportPath string
+	Dir        string
+	Export     string
+	GoFiles    []string
+	Standard   bool
+}
+
+func goList(repoRoot string, args ...string) ([]listPkg, error) {
+	cmd := exec.Command("go", append([]string{"list", "-json=ImportPath,Dir,Export,GoFiles,Standard"}, args...)...)
+	cmd.Dir = repoRoot
+	env := os.Environ()
+	env = append(env, "GOFLAGS=-mod=mod", "GOPROXY=off", "GOSUMDB=off", "GOTOOLCHAIN=local", "GOWORK=off")
+	cmd.Env = env
+	var out, errb bytes.Buffer
+	cmd.Stdout, cmd.Stderr = &out, &errb
+	if err := cmd.Run(); err != nil {
+		return nil, fmt.Errorf("go list %v: %v\n%s", args, err, errb.String())
+	}
+	dec := json.NewDecoder(&out)
+	var res []listPkg
+	for {
+		var p listPkg
+		if err := dec.Decode(&p); err == io.EOF {
+			break
+		} else if err != nil {
+			return nil, err
+		}
+		res = append(res, p)
+	}
+	return res, nil
+}
 
 // Rewrite instruments the given repo package directories and returns overlay
 // replacements (original path -> rewritten copy).
 func Rewrite(repoRoot string, pkgs []string, outDir string, opts map[string]any) (map[string]string, error) {
-	return nil, fmt.Errorf("not implemented yet")
+	var patterns []string
+	for _, p := range pkgs {
+		patterns = append(patterns, "./"+p)
+	}
+	deps, err := goList(repoRoot, append([]string{"-export", "-deps"}, patterns...)...)
+	if err != nil {
+		return nil, err
+	}
+	exports := map[string]string{}
+	byDir := map[string]listPkg{}
+	for _, d := range deps {
+		if d.Export != "" {
+			exports[d.ImportPath] = d.Export
+		}
+		byDir[d.Dir] = d
+	}
+	redirect := map[string]string{}
+	if m, ok := opts["redirect"].(map[string]any); ok {
+		for k, v := range m {
+			redirect[k] = fmt.Sprint(v)
+		}
+	}
+	ctxPkgs := map[string]bool{}
+	if l, ok := opts["context"].([]any); ok {
+		for _, v := range l {
+			ctxPkgs[fmt.Sprint(v)] = true
+		}
+	}
+	noMapOrder := false
+	if v, ok := opts["no_map_order"].(bool); ok {
+		noMapOrder = v
+	}
+	repl := map[string]string{}
+	fset := token.NewFileSet()
+	imp := importer.ForCompiler(fset, "gc", func(path string) (io.ReadCloser, error) {
+		f, ok := exports[path]
+		if !ok {
+			return nil, fmt.Errorf("no export data for %s", path)
+		}
+		return os.Open(f)
+	})
+	for _, p := range pkgs {
+		dir := filepath.Join(repoRoot, p)
+		lp, ok := byDir[dir]
+		if !ok {
+			return nil, fmt.Errorf("package %s not found by go list", p)
+		}
+		var files []*ast.File
+		for _, name := range lp.GoFiles {
+			f, err := parser.ParseFile(fset, filepath.Join(dir, name), nil, parser.SkipObjectResolution)
+			if err != nil {
+				return nil, err
+			}
+			files = append(files, f)
+		}
+		info := &types.Info{Types: map[ast.Expr]types.TypeAndValue{}, Uses: map[*ast.Ident]types.Object{}}
+		conf := types.Config{Importer: imp, Error: func(error) {}}
+		if _, err := conf.Check(lp.ImportPath, fset, files, info); err != nil {
+			return nil, fmt.Errorf("type-check %s: %v", p, err)
+		}
+		for i, f := range files {
+			r := &rewriter{fset: fset, info: info, redirect: redirect, useCtx: ctxPkgs[p], noMapOrder: noMapOrder}
+			if err := r.file(f); err != nil {
+				return nil, fmt.Errorf("%s/%s: %v", p, lp.GoFiles[i], err)
+			}
+			var buf bytes.Buffer
+			if err := printer.Fprint(&buf, fset, f); err != nil {
+				return nil, err
+			}
+			dst := filepath.Join(outDir, p, lp.GoFiles[i])
+			os.MkdirAll(filepath.Dir(dst), 0o755)
+			if err := os.WriteFile(dst, buf.Bytes(), 0o644); err != nil {
+				return nil, err
+			}
+			repl[filepath.Join(dir, lp.GoFiles[i])] = dst
+		}
+	}
+	return repl, nil
 }
+
+type rewriter struct {
+	fset       *token.FileSet
+	info       *types.Info
+	redirect   map[string]string
+	useCtx     bool
+	noMapOrder bool
+	needSched  bool
+	n          int
+	err        error
+	keepImport map[string]string // local import name -> a member to reference (keeps the import used)
+	imports    map[string]string // local name -> path
+}
+
+func (r *rewriter) fail(n ast.Node, format string, a ...any) {
+	if r.err == nil {
+		r.err = fmt.Errorf("%s: %s", r.fset.Position(n.Pos()), fmt.Sprintf(format, a...))
+	}
+}
+
+func (r *rewriter) fresh(prefix string) string {
+	r.n++
+	return fmt.Sprintf("zv%s%d", prefix, r.n)
+}
+
+func id(name string) *ast.Ident { return ast.NewIdent(name) }
+
+func sel(pkg, name string) ast.Expr { return &ast.SelectorExpr{X: id(pkg), Sel: id(name)} }
+
+func call(fn ast.Expr, args ...ast.Expr) *ast.CallExpr { return &ast.CallExpr{Fun: fn, Args: args} }
+
+func (r *rewriter) sched(name string) ast.Expr {
+	r.needSched = true
+	return sel("zvsched", name)
+}
+
+func (r *rewriter) file(f *ast.File) error {
+	f.Comments = nil
+	f.Doc = nil
+	r.keepImport = map[string]string{}
+	r.imports = map[string]string{}
+	shim := map[string]string{
+		"sync":                         "vsync",
+		"time":                         "vtime",
+		"github.com/benbjohnson/clock": "vclock",
+	}
+	if r.useCtx {
+		shim["context"] = "vcontext"
+	}
+	for _, im := range f.Imports {
+		path, _ := strconv.Unquote(im.Path.Value)
+		name := filepath.Base(path)
+		if im.Name != nil {
+			name = im.Name.Name
+		}
+		r.imports[name] = path
+		if s, ok := shim[path]; ok {
+			if im.Name == nil {
+				im.Name = id(name)
+			}
+			im.Path.Value = strconv.Quote(shimBase + s)
+		}
+		im.Doc, im.Comment = nil, nil
+	}
+	for _, d := range f.Decls {
+		switch d := d.(type) {
+		case *ast.FuncDecl:
+			d.Doc = nil
+			if d.Body != nil {
+				d.Body.List = r.stmts(d.Body.List)
+			}
+		case *ast.GenDecl:
+			d.Doc = nil
+			for _, sp := range d.Specs {
+				switch sp := sp.(type) {
+				case *ast.ValueSpec:
+					sp.Doc, sp.Comment = nil, nil
+					for i := range sp.Values {
+						sp.Values[i] = r.expr(sp.Values[i])
+					}
+				case *ast.TypeSpec:
+					sp.Doc, sp.Comment = nil, nil
+					stripFieldComments(sp.Type)
+				}
+			}
+		}
+	}
+	if r.err != nil {
+		return r.err
+	}
+	if r.needSched {
+		addImport(f, "zvsched", shimBase+"vsched")
+	}
+	for name, member := range r.keepImport {
+		f.Decls = append(f.Decls, &ast.GenDecl{Tok: token.VAR, Specs: []ast.Spec{&ast.ValueSpec{Names: []*ast.Ident{id("_")}, Values: []ast.Expr{sel(name, member)}}}})
+	}
+	return nil
+}
+
+func stripFieldComments(n ast.Node) {
+	ast.Inspect(n, func(n ast.Node) bool {
+		if f, ok := n.(*ast.Field); ok {
+			f.Doc, f.Comment = nil, nil
+		}
+		return true
+	})
+}
+
+func addImport(f *ast.File, name, path string) {
+	spec := &ast.ImportSpec{Name: id(name), Path: &ast.BasicLit{Kind: token.STRING, Value: strconv.Quote(path)}}
+	for _, d := range f.Decls {
+		if g, ok := d.(*ast.GenDecl); ok && g.Tok == token.IMPORT {
+			g.Specs = append(g.Specs, spec)
+			if !g.Lparen.IsValid() {
+				g.Lparen = g.Pos()
+				g.Rparen = g.End()
+			}
+			return
+		}
+	}
+	f.Decls = append([]ast.Decl{&ast.GenDecl{Tok: token.IMPORT, Specs: []ast.Spec{spec}}}, f.Decls...)
+}
+
+func (r *rewriter) stmts(list []ast.Stmt) []ast.Stmt {
+	var out []ast.Stmt
+	for _, s := range list {
+		pre, main := r.stmt(s)
+		out = append(out, pre...)
+		if main != nil {
+			out = append(out, main)
+		}
+	}
+	return out
+}
+
+func (r *rewriter) block(b *ast.BlockStmt) *ast.BlockStmt {
+	if b != nil {
+		b.List = r.stmts(b.List)
+	}
+	return b
+}
+
+// simple rewrites a statement that must stay a single statement (init/post clauses).
+func (r *rewriter) simple(s ast.Stmt) ast.Stmt {
+	if s == nil {
+		return nil
+	}
+	pre, main := r.stmt(s)
+	if len(pre) > 0 {
+		r.fail(s, "statement in init/post position needs a prelude; not supported")
+	}
+	return main
+}
+
+func (r *rewriter) stmt(s ast.Stmt) (pre []ast.Stmt, main ast.Stmt) {
+	switch s := s.(type) {
+	case nil:
+		return nil, nil
+	case *ast.BlockStmt:
+		return nil, r.block(s)
+	case *ast.ExprStmt:
+		s.X = r.expr(s.X)
+		return nil, s
+	case *ast.AssignStmt:
+		if len(s.Lhs) == 2 && len(s.Rhs) == 1 {
+			if u, ok := s.Rhs[0].(*ast.UnaryExpr); ok && u.Op == token.ARROW {
+				s.Rhs[0] = call(r.sched("Recv2"), r.expr(u.X))
+				for i := range s.Lhs {
+					s.Lhs[i] = r.expr(s.Lhs[i])
+				}
+				return nil, s
+			}
+		}
+		for i := range s.Rhs {
+			s.Rhs[i] = r.expr(s.Rhs[i])
+		}
+		for i := range s.Lhs {
+			s.Lhs[i] = r.lhs(s.Lhs[i])
+		}
+		return nil, s
+	case *ast.SendStmt:
+		return nil, &ast.ExprStmt{X: call(&ast.SelectorExpr{X: call(r.sched("To"), r.expr(s.Chan)), Sel: id("Send")}, r.expr(s.Value))}
+	case *ast.GoStmt:
+		return r.goStmt(s)
+	case *ast.DeferStmt:
+		s.Call = r.expr(s.Call).(*ast.CallExpr)
+		return nil, s
+	case *ast.ReturnStmt:
+		for i := range s.Results {
+			s.Results[i] = r.expr(s.Results[i])
+		}
+		return nil, s
+	case *ast.IfStmt:
+		s.Init = r.simple(s.Init)
+		s.Cond = r.expr(s.Cond)
+		s.Body = r.block(s.Body)
+		if s.Else != nil {
+			p, m := r.stmt(s.Else)
+			if len(p) > 0 {
+				m = &ast.BlockStmt{List: append(p, m)}
+			}
+			s.Else = m
+		}
+		return nil, s
+	case *ast.ForStmt:
+		s.Init = r.simple(s.Init)
+		if s.Cond != nil {
+			s.Cond = r.expr(s.Cond)
+		}
+		s.Post = r.simple(s.Post)
+		s.Body = r.block(s.Body)
+		return nil, s
+	case *ast.RangeStmt:
+		return r.rangeStmt(s)
+	case *ast.SwitchStmt:
+		s.Init = r.simple(s.Init)
+		if s.Tag != nil {
+			s.Tag = r.expr(s.Tag)
+		}
+		r.block(s.Body)
+		return nil, s
+	case *ast.TypeSwitchStmt:
+		s.Init = r.simple(s.Init)
+		s.Assign = r.simple(s.Assign)
+		r.block(s.Body)
+		return nil, s
+	case *ast.CaseClause:
+		for i := range s.List {
+			s.List[i] = r.expr(s.List[i])
+		}
+		s.Body = r.stmts(s.Body)
+		return nil, s
+	case *ast.SelectStmt:
+		return r.selectStmt(s)
+	case *ast.LabeledStmt:
+		p, m := r.stmt(s.Stmt)
+		s.Stmt = m
+		return p, s
+	case *ast.DeclStmt:
+		if g, ok := s.Decl.(*ast.GenDecl); ok {
+			for _, sp := range g.Specs {
+				if v, ok := sp.(*ast.ValueSpec); ok {
+					for i := range v.Values {
+						v.Values[i] = r.expr(v.Values[i])
+					}
+				}
+			}
+		}
+		return nil, s
+	case *ast.IncDecStmt:
+		s.X = r.expr(s.X)
+		return nil, s
+	case *ast.BranchStmt, *ast.EmptyStmt:
+		return nil, s
+	}
+	r.fail(s, "unsupported statement %T", s)
+	return nil, s
+}
+
+// lhs rewrites an assignment target; map index keys of non-basic type are touched.
+func (r *rewriter) lhs(e ast.Expr) ast.Expr {
+	if ix, ok := e.(*ast.IndexExpr); ok {
+		if tv, ok := r.info.Types[ix.X]; ok {
+			if m, ok := tv.Type.Underlying().(*types.Map); ok {
+				if _, basic := m.Key().Underlying().(*types.Basic); !basic {
+					ix.X = r.expr(ix.X)
+					ix.Index = call(r.sched("Touch"), r.expr(ix.Index))
+					return ix
+				}
+			}
+		}
+	}
+	return r.expr(e)
+}
+
+func (r *rewriter) exprs(l []ast.Expr) {
+	for i := range l {
+		l[i] = r.expr(l[i])
+	}
+}
+
+func (r *rewriter) expr(e ast.Expr) ast.Expr {
+	switch e := e.(type) {
+	case nil:
+		return nil
+	case *ast.UnaryExpr:
+		if e.Op == token.ARROW {
+			return call(r.sched("Recv"), r.expr(e.X))
+		}
+		e.X = r.expr(e.X)
+		return e
+	case *ast.CallExpr:
+		if f, ok := e.Fun.(*ast.Ident); ok && f.Name == "close" && len(e.Args) == 1 {
+			if obj, ok := r.info.Uses[f]; ok {
+				if _, isBuiltin := obj.(*types.Builtin); isBuiltin {
+					return call(r.sched("Close"), r.expr(e.Args[0]))
+				}
+			}
+		}
+		if s, ok := e.Fun.(*ast.SelectorExpr); ok {
+			if x, ok := s.X.(*ast.Ident); ok {
+				if to, ok := r.redirect[x.Name+"."+s.Sel.Name]; ok {
+					if _, isPkg := r.info.Uses[x].(*types.PkgName); isPkg {
+						r.keepImport[x.Name] = s.Sel.Name
+						e.Fun = id(to)
+						r.exprs(e.Args)
+						return e
+					}
+				}
+			}
+		}
+		e.Fun = r.expr(e.Fun)
+		r.exprs(e.Args)
+		return e
+	case *ast.FuncLit:
+		e.Body = r.block(e.Body)
+		return e
+	case *ast.BinaryExpr:
+		e.X, e.Y = r.expr(e.X), r.expr(e.Y)
+		return e
+	case *ast.ParenExpr:
+		e.X = r.expr(e.X)
+		return e
+	case *ast.SelectorExpr:
+		e.X = r.expr(e.X)
+		return e
+	case *ast.IndexExpr:
+		e.X, e.Index = r.expr(e.X), r.expr(e.Index)
+		return e
+	case *ast.IndexListExpr:
+		e.X = r.expr(e.X)
+		return e
+	case *ast.SliceExpr:
+		e.X, e.Low, e.High, e.Max = r.expr(e.X), r.expr(e.Low), r.expr(e.High), r.expr(e.Max)
+		return e
+	case *ast.StarExpr:
+		e.X = r.expr(e.X)
+		return e
+	case *ast.TypeAssertExpr:
+		e.X = r.expr(e.X)
+		return e
+	case *ast.KeyValueExpr:
+		e.Key, e.Value = r.expr(e.Key), r.expr(e.Value)
+		return e
+	case *ast.CompositeLit:
+		r.exprs(e.Elts)
+		return e
+	case *ast.Ident, *ast.BasicLit, *ast.ArrayType, *ast.StructType, *ast.FuncType, *ast.InterfaceType, *ast.MapType, *ast.ChanType, *ast.Ellipsis:
+		return e
+	}
+	r.fail(e, "unsupported expression %T", e)
+	return e
+}
+
+func define(name string, v ast.Expr) ast.Stmt {
+	return &ast.AssignStmt{Lhs: []ast.Expr{id(name)}, Tok: token.DEFINE, Rhs: []ast.Expr{v}}
+}
+
+// go f(a, b): callee and arguments are evaluated now, the call runs in a managed thread.
+func (r *rewriter) goStmt(s *ast.GoStmt) ([]ast.Stmt, ast.Stmt) {
+	c := s.Call
+	var pre []ast.Stmt
+	fn := r.fresh("f")
+	pre = append(pre, define(fn, r.expr(c.Fun)))
+	var args []ast.Expr
+	for _, a := range c.Args {
+		an := r.fresh("a")
+		pre = append(pre, define(an, r.expr(a)))
+		args = append(args, id(an))
+	}
+	if c.Ellipsis.IsValid() {
+		r.fail(s, "go statement with variadic spread not supported")
+	}
+	body := &ast.BlockStmt{List: []ast.Stmt{&ast.ExprStmt{X: call(id(fn), args...)}}}
+	lit := &ast.FuncLit{Type: &ast.FuncType{Params: &ast.FieldList{}}, Body: body}
+	return pre, &ast.ExprStmt{X: call(r.sched("Go"), lit)}
+}
+
+func (r *rewriter) rangeStmt(s *ast.RangeStmt) ([]ast.Stmt, ast.Stmt) {
+	tv, ok := r.info.Types[s.X]
+	if !ok {
+		r.fail(s, "no type information for range expression")
+		return nil, s
+	}
+	s.X = r.expr(s.X)
+	switch t := tv.Type.Underlying().(type) {
+	case *types.Chan:
+		// for x := range ch  ->  for { x, ok := Recv2(ch); if !ok { break }; body }
+		ch := r.fresh("ch")
+		pre := []ast.Stmt{define(ch, s.X)}
+		okv := r.fresh("ok")
+		var lhs ast.Expr = id("_")
+		tok := token.DEFINE
+		if s.Key != nil {
+			lhs = s.Key
+			tok = s.Tok
+		}
+		recv := &ast.AssignStmt{Lhs: []ast.Expr{lhs, id(okv)}, Tok: token.DEFINE, Rhs: []ast.Expr{call(r.sched("Recv2"), id(ch))}}
+		if tok == token.ASSIGN {
+			r.fail(s, "range over channel with assignment not supported")
+		}
+		brk := &ast.IfStmt{Cond: &ast.UnaryExpr{Op: token.NOT, X: id(okv)}, Body: &ast.BlockStmt{List: []ast.Stmt{&ast.BranchStmt{Tok: token.BREAK}}}}
+		body := r.block(s.Body)
+		body.List = append([]ast.Stmt{recv, brk}, body.List...)
+		return pre, &ast.ForStmt{Body: body}
+	case *types.Map:
+		if r.noMapOrder {
+			s.Body = r.block(s.Body)
+			return nil, s
+		}
+		if s.Tok == token.ASSIGN {
+			r.fail(s, "range over map with assignment not supported")
+			return nil, s
+		}
+		m := r.fresh("m")
+		pre := []ast.Stmt{define(m, s.X)}
+		keyName := "_"
+		if k, ok := s.Key.(*ast.Ident); ok && s.Key != nil {
+			keyName = k.Name
+		}
+		hasVal := false
+		if v, ok := s.Value.(*ast.Ident); ok && s.Value != nil && v.Name != "_" {
+			hasVal = true
+		}
+		if keyName == "_" && hasVal {
+			keyName = r.fresh("k")
+		}
+		body := r.block(s.Body)
+		if hasVal {
+			okv := r.fresh("ok")
+			get := &ast.AssignStmt{Lhs: []ast.Expr{s.Value, id(okv)}, Tok: token.DEFINE, Rhs: []ast.Expr{&ast.IndexExpr{X: id(m), Index: id(keyName)}}}
+			cont := &ast.IfStmt{Cond: &ast.UnaryExpr{Op: token.NOT, X: id(okv)}, Body: &ast.BlockStmt{List: []ast.Stmt{&ast.BranchStmt{Tok: token.CONTINUE}}}}
+			body.List = append([]ast.Stmt{get, cont}, body.List...)
+		}
+		_ = t
+		ns := &ast.RangeStmt{Key: id("_"), Value: id(keyName), Tok: token.DEFINE, X: call(r.sched("SortedKeys"), id(m)), Body: body}
+		if keyName == "_" {
+			ns.Value = nil
+			ns.Key = nil
+			ns.Tok = token.ILLEGAL
+		}
+		return pre, ns
+	}
+	s.Body = r.block(s.Body)
+	return nil, s
+}
+
+func (r *rewriter) selectStmt(s *ast.SelectStmt) ([]ast.Stmt, ast.Stmt) {
+	var pre []ast.Stmt
+	var caseVars []ast.Expr
+	var clauses []ast.Stmt
+	hasDefault := false
+	idx := 0
+	for _, cl := range s.Body.List {
+		cc := cl.(*ast.CommClause)
+		body := r.stmts(cc.Body)
+		if cc.Comm == nil {
+			hasDefault = true
+			clauses = append(clauses, &ast.CaseClause{List: []ast.Expr{&ast.UnaryExpr{Op: token.SUB, X: &ast.BasicLit{Kind: token.INT, Value: "1"}}}, Body: body})
+			continue
+		}
+		cv := r.fresh("c")
+		var head []ast.Stmt
+		switch c := cc.Comm.(type) {
+		case *ast.SendStmt:
+			pre = append(pre, define(cv, call(&ast.SelectorExpr{X: call(r.sched("To"), r.expr(c.Chan)), Sel: id("Case")}, r.expr(c.Value))))
+		case *ast.ExprStmt:
+			u, ok := c.X.(*ast.UnaryExpr)
+			if !ok || u.Op != token.ARROW {
+				r.fail(cc, "unsupported select communication")
+				continue
+			}
+			pre = append(pre, define(cv, call(r.sched("NewRecv"), r.expr(u.X))))
+		case *ast.AssignStmt:
+			u, ok := c.Rhs[0].(*ast.UnaryExpr)
+			if !ok || u.Op != token.ARROW || len(c.Rhs) != 1 {
+				r.fail(cc, "unsupported select communication")
+				continue
+			}
+			pre = append(pre, define(cv, call(r.sched("NewRecv"), r.expr(u.X))))
+			rhs := []ast.Expr{&ast.SelectorExpr{X: id(cv), Sel: id("V")}}
+			if len(c.Lhs) == 2 {
+				rhs = append(rhs, &ast.SelectorExpr{X: id(cv), Sel: id("OK")})
+			}
+			head = append(head, &ast.AssignStmt{Lhs: c.Lhs, Tok: c.Tok, Rhs: rhs})
+		default:
+			r.fail(cc, "unsupported select communication %T", c)
+			continue
+		}
+		caseVars = append(caseVars, id(cv))
+		clauses = append(clauses, &ast.CaseClause{List: []ast.Expr{&ast.BasicLit{Kind: token.INT, Value: strconv.Itoa(idx)}}, Body: append(head, body...)})
+		idx++
+	}
+	dflt := "false"
+	if hasDefault {
+		dflt = "true"
+	}
+	args := append([]ast.Expr{id(dflt)}, caseVars...)
+	sw := &ast.SwitchStmt{Tag: call(r.sched("Select"), args...), Body: &ast.BlockStmt{List: clauses}}
+	return pre, sw
+}
+
+var _ = strings.Contains
